@@ -50,7 +50,7 @@ func hexDecode(s string) ([]byte, error) {
 }
 
 func checkC05(c *Ctx) {
-	c.rule = "encrypt side: random (plaintext size incl. every chunk boundary class, recipient list over all four native types + stubs, armor, tape): the implementation's file must equal, byte for byte, the file the model computes from the same values. decrypt side: the frozen corpus (all four recipient types x sizes {0,1,cs-1,cs,cs+1,2cs-1,2cs,2cs+1} (x25519) / {0,1,cs,cs+1} (others) x binary/armored, SHA-256 of each plaintext recorded when frozen) must decrypt with implementation and model; the model alone must give the prescribed verdict on all 114 CCTV vectors; files WRITTEN by the model must decrypt with the implementation. distinct_nontrivial = distinct files."
+	c.rule = "encrypt side: random (plaintext size incl. every chunk boundary class, recipient list over all four native types + stubs, armor, tape): the implementation's file must equal, byte for byte, the file the model computes from the same values. decrypt side: the frozen corpus (all four recipient types x sizes {0,1,cs-1,cs,cs+1,2cs-1,2cs,2cs+1} (x25519) / {0,1,cs,cs+1} (others) x binary/armored, plus files to all three public-key types in every order opened by each identity, SHA-256 of each plaintext recorded when frozen) must decrypt with implementation and model; the model alone must give the prescribed verdict on all 114 CCTV vectors; files WRITTEN by the model must decrypt with the implementation. distinct_nontrivial = distinct files."
 	// (0) model against the specification's vectors
 	c.cctvValidate()
 	// (a) encrypt side
@@ -80,7 +80,6 @@ func checkC05(c *Ctx) {
 					_, out, oc := decryptImpl(bytes.NewReader(mf), sc.armor, []age.Identity{p.id})
 					c.Oracle("reference-file-decrypts", bytes.Equal(out, sc.plain) && oc == ":eof", "reference-file", in, "a file written by the reference encoder did not decrypt with "+p.name)
 					c.count("model-written-file-decrypted")
-					break
 				}
 			}
 		}
@@ -108,7 +107,7 @@ func checkC05(c *Ctx) {
 			model := c.decryptModel(file, e.Armored, []string{p.isx})
 			c.Compare("age.Decrypt(corpus)~Age.decrypt", e, impl, model)
 		}
-		c.note("corpus:"+e.File, true)
+		c.note("corpus:"+e.File+":"+e.Kind, true)
 		c.count("corpus-" + e.Kind)
 	}
 }
